@@ -112,8 +112,40 @@ var vpC38Cases = []vpC38Case{
 	{"dict-multiline", "build_rule(\n    name = \"d\",\n    cmd = {\n        \"opt\": \"echo opt\",  # first\n        \"dbg\": \"echo dbg\",\n    },\n    outs = [\"o\"],\n)\n", true},
 	{"deps-and-srcs", "build_rule(name=\"x\", cmd=\"true\", outs=[\"o\"])\nbuild_rule(name=\"y\", srcs=[\":x\", \"f.txt\"], deps=[\":x\"], cmd=\"cat $SRCS\", outs=[\"p\"], binary=True, test_only=True)\n", true},
 	{"consecutive-subincludes", "subinclude(\"//a:b\")\nsubinclude(\"//c:d\")\n\nsubinclude(\"//e:f\", \"//g:h\")\nbuild_rule(name=\"s\", cmd=\"true\", outs=[\"o\"])\n", false},
+	{"non-consecutive-subincludes", "subinclude(\"//a:b\")\nx = 1\nsubinclude(\"//c:d\")\nsubinclude(\"//e:f\")\nbuild_rule(name=\"s\", cmd=\"true\", outs=[\"o\"])\nsubinclude(\"//g:h\")\n", false},
+	{"subinclude-of-a-local-target", "build_rule(name=\"defs\", cmd=\"true\", outs=[\"d.build_defs\"])\nsubinclude(\":defs\")\nsubinclude(\"//c:d\")\n", false},
 	{"assert-pass", "def h(x):\n    assert x, \"needs x\"\n    pass\n\nh(1)\nbuild_rule(name=\"a\", cmd=\"true\", outs=[\"o\"])\n", true},
 	{"augmented-assign", "l = [\"a\"]\nl += [\"b\"]\nn = 1\nn += 2\nbuild_rule(name=\"g\", cmd=\"true\", outs=[\"o\"], labels=l + [str(n)])\n", true},
+}
+
+// vpSkeleton: the top-level statements in order, a subinclude call standing for
+// its arguments one by one (so merging adjacent calls keeps the skeleton, moving
+// one across another statement does not)
+func vpSkeleton(src string) string {
+	f, err := build.ParseBuild("BUILD", []byte(src))
+	if err != nil {
+		return "unparseable"
+	}
+	var out []string
+	for _, st := range f.Stmt {
+		if call, ok := st.(*build.CallExpr); ok {
+			if id, ok := call.X.(*build.Ident); ok && id.Name == "subinclude" {
+				for _, a := range call.List {
+					if str, ok := a.(*build.StringExpr); ok {
+						out = append(out, "subinclude:"+str.Value)
+					} else {
+						out = append(out, "subinclude:?")
+					}
+				}
+				continue
+			}
+		}
+		if _, ok := st.(*build.CommentBlock); ok {
+			continue
+		}
+		out = append(out, "statement")
+	}
+	return strings.Join(out, " ")
 }
 
 func vpH_C38_format() {
@@ -124,6 +156,8 @@ func vpH_C38_format() {
 	out2, err := vpFormat(out)
 	vpAssert("formatting-is-idempotent: "+c.name, err == nil && out2 == out)
 	vpAssert("please-accepts-the-formatted-file: "+c.name, vpAccepts(out))
+	// a subinclude rebinds names for everything after it: none moves across another statement
+	vpAssert("subincludes-keep-their-place-among-the-statements: "+c.name, vpSkeleton(out) == vpSkeleton(c.src))
 	if c.evaluate {
 		before, err1 := vpTargets(c.src, false)
 		vpAssert("original-evaluates: "+c.name, err1 == nil)
